@@ -8,9 +8,9 @@ import (
 	"crypto/hmac"
 	"crypto/sha512"
 	"encoding/binary"
-	"math/big"
 	"encoding/hex"
 	"fmt"
+	"math/big"
 	"os"
 	"path/filepath"
 	"strings"
@@ -266,6 +266,40 @@ func checkNode(c *ctx, k *hdkeychain.ExtendedKey, rng *vh.Rng, children []uint32
 				}
 			}
 		}
+	}
+	checkZeroIsolated(c, k, children)
+}
+
+// checkZeroIsolated: wiping one derived key (the wallet wipes every intermediate key it no longer needs) must not change
+// any other key object: a sibling derived earlier still serialises as before, and deriving it again gives the same key.
+func checkZeroIsolated(c *ctx, k *hdkeychain.ExtendedKey, children []uint32) {
+	var usable []uint32
+	for _, i := range children {
+		if i < H || k.IsPrivate() {
+			usable = append(usable, i)
+		}
+	}
+	if len(usable) < 2 {
+		return
+	}
+	a, errA := k.Child(usable[0])
+	b, errB := k.Child(usable[1])
+	if errA != nil || errB != nil {
+		return
+	}
+	before, parentBefore := a.String(), k.String()
+	b.Zero()
+	c.run.Count("sibling_keys_wiped", 1)
+	if after := a.String(); after != before {
+		c.run.Violate(c.ci, "key-changed-by-wiping-another-key", c.attrs("sibling"), c.detail(map[string]interface{}{"parent": parentBefore, "kept_child": usable[0], "wiped_child": usable[1], "before": before, "after": after}))
+		return
+	}
+	if k.String() != parentBefore {
+		c.run.Violate(c.ci, "key-changed-by-wiping-another-key", c.attrs("parent"), c.detail(map[string]interface{}{"parent": parentBefore, "wiped_child": usable[1], "after": k.String()}))
+		return
+	}
+	if a2, err := k.Child(usable[0]); err != nil || a2.String() != before {
+		c.run.Violate(c.ci, "key-changed-by-wiping-another-key", c.attrs("derived-again"), c.detail(map[string]interface{}{"parent": parentBefore, "child": usable[0], "wiped_child": usable[1], "before": before, "after": fmt.Sprint(a2), "err": fmt.Sprint(err)}))
 	}
 }
 
